@@ -40,7 +40,8 @@ def follows_keyword(ev, src, pc):
                             ev0 = lp['entry'].store.get(loc)
                             if ev0 is not None and ev0[0] == 'adt' and T.adt_field(ev0, 'pos')[0] == 'int' and T.adt_field(ev0, 'pos')[1] >= 2:
                                 return True
-    return False
+    # entailed by the token-layout theory (e.g. keyword token followed by ... CRLF: the CR is a separator, so a further token exists)
+    return solver.entails(pc, ('call', 'has_tok', (src, I(2))))
 
 
 def inv1_premises(ctx, R, rule='C15.I'):
